@@ -207,6 +207,15 @@ def r26b(ctx, run):
                 if not (ch and ch.get("kind") == "discr" and of.get("kind") == "call" and short(of["callee"]) == "next"):
                     good = False
                     detail.append("the loop over the parents can be left early (edge bb%d -> bb%d): later parents keep a stale count" % (u, v))
+            # the loop itself runs whenever an entry was taken out: nothing but "the entry existed" stands between the removal and the loop
+            for d, ch, sides in r.conditions_of(h):
+                if d in body:
+                    continue
+                names = {short(n["callee"]) for n in FA.chain_calls(ch)}
+                if not (ch.get("kind") == "discr" and names & {short(rem[0].callee)}) or any(n.get("kind") == "place" and any("num_children" in str(x) for x in n.get("proj", [])) for n in FA.walk_chain(ch)):
+                    good = False
+                    detail.append("whether the parents are uncounted at all depends on %s: an item that completes under that condition leaves its dependents' counts too high "
+                                  "(they are never offered again)" % FA.show_chain(ch, 5)[:70])
             # inside an iteration the decrement depends only on the parent still being present
             for d, ch, sides in r.conditions_of(ubb):
                 if d not in body:
